@@ -16,6 +16,7 @@ import (
 // and replay files and exposed as features for known-findings predicates.
 type OptionSet struct {
 	Dict       string  `json:"dictionary_limit"` // default | none | uint8 | uint16 | uint32 | uint64
+	Init       string  `json:"dictionary_init"`  // default | uint8 | uint16 | uint32 | uint64
 	Reset      string  `json:"dict_reset_threshold"`
 	ResetVal   float64 `json:"-"`
 	Zstd       string  `json:"zstd"` // default | on | off
@@ -27,12 +28,12 @@ type OptionSet struct {
 }
 
 func (o OptionSet) Features() map[string]string {
-	return map[string]string{"dict": o.Dict, "reset": o.Reset, "zstd": o.Zstd, "order_span": fmt.Sprint(o.OrderSpan),
+	return map[string]string{"dict": o.Dict, "init": o.Init, "reset": o.Reset, "zstd": o.Zstd, "order_span": fmt.Sprint(o.OrderSpan),
 		"order16": fmt.Sprint(o.Order16), "order32": fmt.Sprint(o.Order32)}
 }
 
 func defaultOptions() OptionSet {
-	return OptionSet{Dict: "default", Reset: "default", Zstd: "default", OrderSpan: -1, Order16: -1, Order32: -1, Limit: math.MaxUint16, ResetVal: 0.3}
+	return OptionSet{Dict: "default", Init: "default", Reset: "default", Zstd: "default", OrderSpan: -1, Order16: -1, Order32: -1, Limit: math.MaxUint16, ResetVal: 0.3}
 }
 
 // drawOptions draws a point of the swarm. cheap biases toward small
@@ -69,6 +70,9 @@ func drawOptions(t *core.Tape, cheap bool) OptionSet {
 	case 5:
 		o.Reset, o.ResetVal = "1e9", 1e9
 	}
+	if t.Chance(core.Cfg, 1, 3) {
+		o.Init = []string{"uint8", "uint16", "uint32", "uint64"}[t.Draw(core.Cfg, 4)]
+	}
 	switch t.Draw(core.Cfg, 3) {
 	case 1:
 		o.Zstd = "on"
@@ -100,6 +104,16 @@ func (o OptionSet) build(alloc memory.Allocator, obs observer.ProducerObserver) 
 		opts = append(opts, config.WithUint32LimitDictIndex())
 	case "uint64":
 		opts = append(opts, config.WithUint64LimitDictIndex())
+	}
+	switch o.Init {
+	case "uint8":
+		opts = append(opts, config.WithUint8InitDictIndex())
+	case "uint16":
+		opts = append(opts, config.WithUint16InitDictIndex())
+	case "uint32":
+		opts = append(opts, config.WithUint32LinitDictIndex())
+	case "uint64":
+		opts = append(opts, config.WithUint64InitDictIndex())
 	}
 	if o.Reset != "default" {
 		opts = append(opts, config.WithDictResetThreshold(o.ResetVal))
